@@ -14,7 +14,7 @@ M = [
  ("c01_block_length_unchecked", "C01,C08", "libscpi/src/lexer.c",
   "                if ((state->buffer + state->len) >= (state->pos)) {", "                if ((state->buffer + state->len + 1) >= (state->pos)) {"),
  ("c01_copytext_bound", "C01", "libscpi/src/parser.c",
-  "                    if (i_from >= buffer_len) {", "                    if (i_to > buffer_len) {"),
+  "                    if (i_to + 1 >= buffer_len) {", "                    if (i_to > buffer_len) {"),
  ("c01_channel_capacity", "C01", "libscpi/src/expression.c",
   "        if (i < length) {\n            SCPI_ParamToInt32(context, &param, &values[i]);", "        if (i <= length) {\n            SCPI_ParamToInt32(context, &param, &values[i]);"),
  ("c01_header_compose_underflow", "C01,C02", "libscpi/src/utils.c",
